@@ -303,3 +303,39 @@ package generator
 //@   ensures [C07] level-2: dyn(t.Type) == "*codegen.ArrayType" ==> (has_elem(result, "*generator.arrayValidator", "arrayDepth", 2, "minItems", f.SchemaType.Items.MinItems, "maxItems", f.SchemaType.Items.MaxItems) <==> lim(f.SchemaType.Items))
 //@   ensures [C07] level-3: dyn(t.Type) == "*codegen.ArrayType" && dyn(t.Type.Type) == "*codegen.ArrayType" ==> (has_elem(result, "*generator.arrayValidator", "arrayDepth", 3, "minItems", f.SchemaType.Items.Items.MinItems, "maxItems", f.SchemaType.Items.Items.MaxItems) <==> lim(f.SchemaType.Items.Items))
 //@   ensures [C07,C19] no-stray-level: !has_elem(result, "*generator.arrayValidator", "arrayDepth", 0) && (dyn(t.Type) != "*codegen.ArrayType" ==> !has_elem(result, "*generator.arrayValidator", "arrayDepth", 2))
+
+// ---- struct fields (addStructField) ------------------------------------------
+// generateTypeInline is glue (mutually recursive generation with decl caches):
+// assumed contract, listed as such in the evidence. It returns an error, or a
+// type; it does not touch the struct being built nor the two name maps.
+//@ func (*schemaGenerator).generateTypeInline
+//@   trusted assumed contract: returns (nil, error) or (type, nil); does not modify structType, uniqueNames, requiredNames (it may add imports and declarations to the output, which no post below reads)
+//@   shape results = (prim:string; nil) | (ptr:string; nil) | (arr1:int; nil) | (named:X; nil) | (nil; error)
+//@   assigns nothing
+
+//@ spec the_prop(t, name) = t.Properties[name]
+//@ spec final_base(g, t, name) = (the_prop(t, name).GoJSONSchemaExtension != nil && the_prop(t, name).GoJSONSchemaExtension.Identifier != nil)
+//@     ? *the_prop(t, name).GoJSONSchemaExtension.Identifier : identifierize_of(name)
+
+//@ func (*schemaGenerator).addStructField
+//@   props C04 C09 C14 C02 C18 C16
+//@   option shape-zero t. prop. scope. structType.
+//@   shape g = sgen() | sgen(json) | sgen(json,yaml,mapstructure)
+//@   shape structType = new
+//@   shape t = new
+//@   shape t.Properties = propmap(name)
+//@   shape prop.Default = nil | anystring
+//@   shape prop.GoJSONSchemaExtension = nil | new
+//@   shape prop.GoJSONSchemaExtension.Identifier = nil | new
+//@   shape uniqueNames = symmap()
+//@   shape requiredNames = strmap(name:true) | strmap(name:false) | strmap()
+//@   assigns *structType, *g.output.file, uniqueNames
+//@   ensures [C18] error-propagates: result != nil ==> len(structType.Fields) == 0
+//@   ensures [C14,C02] one-field: result == nil ==> len(structType.Fields) == 1 && last(structType.Fields).JSONName == name
+//@   ensures [C04,C09] required-iff: result == nil ==> (contains_str(structType.RequiredJSONFields, name) <==> (requiredNames[name] == true && the_prop(t, name).Default == nil))
+//@   ensures [C04] required-only-this: result == nil ==> len(structType.RequiredJSONFields) <= 1
+//@   ensures [C09] default-carried: result == nil ==> ((last(structType.Fields).DefaultValue != nil) <==> the_prop(t, name).Default != nil)
+//@   ensures [C02,C09] optional-is-nillable: result == nil && requiredNames[name] != true && the_prop(t, name).Default == nil ==> is_nillable(last(structType.Fields).Type)
+//@   ensures [C02,C09] required-or-default-keeps-type: result == nil && (requiredNames[name] == true || the_prop(t, name).Default != nil) ==> last(structType.Fields).Type == call_result("(*schemaGenerator).generateTypeInline", 0)
+//@   ensures [C14] name-recorded: result == nil ==> map_has(uniqueNames, final_base(g, t, name))
+//@   ensures [C14,C16] tags: result == nil ==> last(structType.Fields).Tags == expected_tags(g.config.Tags, name, requiredNames[name] == true)
